@@ -54,6 +54,44 @@ pub mod iter {
             }
             Fold { parts }
         }
+
+        /// order-preserving adaptors (rayon: `map`, `copied`, `cloned` apply the function to every item, keeping the
+        /// sequence), so that glue which converts `&f64` items before delegating to the by-value impl stays in reach
+        fn map<R, F>(self, f: F) -> Map<R>
+        where
+            F: Fn(Self::Item) -> R,
+        {
+            let items = self.drain();
+            let [a, b, c] = items;
+            Map { items: [a.map(&f), b.map(&f), c.map(&f)] }
+        }
+
+        fn copied<'a, T>(self) -> Map<T>
+        where
+            T: 'a + Copy,
+            Self: ParallelIterator<Item = &'a T>,
+        {
+            self.map(|x| *x)
+        }
+
+        fn cloned<'a, T>(self) -> Map<T>
+        where
+            T: 'a + Clone,
+            Self: ParallelIterator<Item = &'a T>,
+        {
+            self.map(|x| x.clone())
+        }
+    }
+
+    pub struct Map<R> {
+        items: [Option<R>; MAX],
+    }
+
+    impl<R> ParallelIterator for Map<R> {
+        type Item = R;
+        fn drain(self) -> [Option<R>; MAX] {
+            self.items
+        }
     }
 
     pub struct Fold<T> {
